@@ -842,6 +842,27 @@ class Engine:
             return self.strkey(v.val)
         if isinstance(v, V) and isinstance(v.t, (Ty._Int,)):
             return v.term
+        if isinstance(v, V) and isinstance(v.t, Ty.Tuple) and all(isinstance(x, Ty._Int) for x in v.t.ts) and v.t.ts:
+            # tuples of keys used as a dict key: an injective pairing function
+            n = len(v.t.ts)
+            name = f"tupkey{n}"
+            if name not in self.specfns:
+                f = z3.Function(name, *([Ty.IntS] * n), Ty.IntS)
+                self.specfns[name] = (f, [], Int, None)
+                xs = [z3.Int(f"tk!x{i}") for i in range(n)]
+                ys = [z3.Int(f"tk!y{i}") for i in range(n)]
+                self.axioms.append(z3.ForAll(xs + ys, z3.Implies(f(*xs) == f(*ys), z3.And(*[a == b for a, b in zip(xs, ys)])),
+                                             patterns=[z3.MultiPattern(f(*xs), f(*ys))]))
+            return self.specfns[name][0](*v.c)
+        if isinstance(v, V) and isinstance(v.t, Ty.Set):
+            # frozensets used as dict keys (tree nodes): injective id
+            if "setkey" not in self.specfns:
+                SetS = z3.ArraySort(Ty.IntS, Ty.BoolS)
+                f = z3.Function("setkey", SetS, Ty.IntS)
+                self.specfns["setkey"] = (f, [], Int, None)
+                A, B = z3.Const("sk!A", SetS), z3.Const("sk!B", SetS)
+                self.axioms.append(z3.ForAll([A, B], z3.Implies(f(A) == f(B), A == B), patterns=[z3.MultiPattern(f(A), f(B))]))
+            return self.specfns["setkey"][0](v.c[0])
         raise Unsupported(f"key expected, got {v}")
 
     def e_Compare(self, st, node):
@@ -885,6 +906,10 @@ class Engine:
                     return self.eval(st, self.parse_expr(props[attr]))
                 finally:
                     self.bound = old
+        if f"*.attr:{attr}" in self.contract.externals:
+            r = self.external(st, f"*.attr:{attr}", [base], node)
+            if r is not None:
+                return r
         if isinstance(bv, PyConst):
             try:
                 val = getattr(bv.val, attr)
